@@ -266,7 +266,7 @@ class C19(Check):
         out.nontrivial = True
         out.descriptor = ("special", w)
         out.sample = {"what": w}
-        fx = "/repo/tests/data"
+        fx = os.path.join(REPO, "tests/data")
         if w == "info":
             rc, so, se = cli(["i"], work)
             if rc != 0:
